@@ -240,6 +240,9 @@
 //     a ':' in a generated parameter name is dropped instead of becoming '_';
 //     under "refs" a slice of translatable elements is a `List`, `len(s)` its
 //     length, `s[i]` is `none` (panic) unless 0 ≤ i < len(s), nil slice = [];
+//   - inside a range loop a clause of a type switch over a symbolic interface
+//     value may `continue` the loop (`break` there would leave the switch only
+//     and stays outside the subset);
 //   - `len(x)` of anything else is an opaque value parameter;
 //   - the zero value of a slice (a named result) is the empty list;
 //     newDeviceDataError(err, typ), like fmt.Errorf, makes a non-nil error;
@@ -2744,9 +2747,14 @@ func (c *fctx) typeSwitch(x *ast.TypeSwitchStmt, rest []ast.Stmt) string {
 		cc := cl.(*ast.CaseClause)
 		ast.Inspect(cc, func(n ast.Node) bool {
 			if b, ok := n.(*ast.BranchStmt); ok {
+				if b.Tok == token.CONTINUE && b.Label == nil && c.loop != nil {
+					return true // continues the enclosing range loop (a `break` would leave the switch only)
+				}
 				fail("branch statement %s in type switch", b.Tok)
 			}
-			return true
+			_, isLoop := n.(*ast.RangeStmt)
+			_, isFor := n.(*ast.ForStmt)
+			return !isLoop && !isFor
 		})
 		if cc.List == nil {
 			deflt = append(append([]ast.Stmt{}, cc.Body...), rest...)
